@@ -10,7 +10,7 @@ pub fn subs() -> Vec<Box<dyn DynSub>> {
 pub fn run(ctx: &Ctx) -> EvidenceMeta {
   let subs = all_subs("C02", &Proto::PUBLIC);
   // per-unit budgets are divided by the protocol's cost factor (v2/v4: 2, v1: 8, v3: 40)
-  run_rt(ctx, &subs, 2000, 30_000, 100_000, 100_000);
+  run_rt(ctx, &subs, 8000, 60_000, 100_000, 1_000_000);
   EvidenceMeta {
     rule: "as C01 with the public protocols: a fresh Ed25519 / P-384 key pair derived from a generated seed per case, RSA-2048 pairs from a pool of 7 (6 generated offline + the official v1 vector key). \
            Oracle: verify(sign(m)) == m exactly at core, generic and batteries-included layers. Non-trivial = message non-empty or footer/assertion present; distinct by the whole case (incl. key seed)."
